@@ -1,9 +1,415 @@
 //! Checks over the concrete (hand-written and generated) type corpus, per property.
-use crate::runner::Ctx;
 
-pub fn c01(_ctx: &Ctx) {}
+use crate::corpus::{self, CorpusType, Src};
+use crate::dynmap;
+use crate::record::conforms;
+use crate::refcodec::{ref_decode, ref_encode};
+use crate::runner::{fail, hex, no_panic, panic_site, CaseResult, Ctx, Local};
+use crate::schematree::{self, Tree};
+use postcard_schema::schema::owned::OwnedDataModelType;
+use proptest::prelude::*;
+use serde_json::{json, Value as Json};
+use std::sync::OnceLock;
+
+pub fn types() -> &'static Vec<CorpusType> {
+    static T: OnceLock<Vec<CorpusType>> = OnceLock::new();
+    T.get_or_init(corpus::all)
+}
+
+fn find(name: &str) -> Option<usize> {
+    types().iter().position(|t| t.name == name)
+}
+
+fn cj(t: &CorpusType, data: &[u8], extreme: Option<usize>, prop: &str) -> Json {
+    json!({"corpus_type": t.name, "data": hex(data), "extreme": extreme, "corpus_prop": prop, "corpus_seed": corpus::generated::SEED})
+}
+
+/// value of corpus type `ti`: extreme number `e` if given, else built from `data`
+fn value(t: &CorpusType, data: &[u8], extreme: Option<usize>, json_mode: bool) -> Option<Box<dyn corpus::Erased>> {
+    match extreme {
+        Some(e) => (t.extremes)().into_iter().nth(e),
+        None => {
+            let mut s = Src::new(data, json_mode);
+            Some((t.make)(&mut s))
+        }
+    }
+}
+
+fn arb_case(filter: fn(&CorpusType) -> bool) -> BoxedStrategy<(usize, Vec<u8>)> {
+    let idx: Vec<usize> = types().iter().enumerate().filter(|(_, t)| filter(t)).map(|(i, _)| i).collect();
+    let n = idx.len();
+    (0..n, proptest::collection::vec(any::<u8>(), 0..160)).prop_map(move |(i, d)| (idx[i], d)).boxed()
+}
+
+fn all_extremes(filter: fn(&CorpusType) -> bool) -> Vec<(usize, usize)> {
+    let mut v = vec![];
+    for (i, t) in types().iter().enumerate() {
+        if filter(t) {
+            for e in 0..(t.extremes)().len() {
+                v.push((i, e));
+            }
+        }
+    }
+    v
+}
+
+// ------------------------------------------------------------------ C01: concrete round-trip
+
+fn c01_one(ti: usize, data: &[u8], extreme: Option<usize>, l: &mut Local) -> CaseResult {
+    let t = &types()[ti];
+    let Some(rt) = t.roundtrip else { return Ok(()) };
+    let Some(v) = value(t, data, extreme, false) else { return Ok(()) };
+    let c = || cj(t, data, extreme, "C01");
+    l.eval();
+    let bytes = no_panic(|| v.bytes()).map_err(|p| fail("corpus", format!("{}: to_allocvec panicked: {}", t.name, p), c()))?;
+    let bytes = bytes.map_err(|e| fail("corpus", format!("{}: to_allocvec failed: {:?} for {}", t.name, e, v.dbg()), c()))?;
+    let mut input = bytes.clone();
+    input.extend_from_slice(&[0x00, 0xFF, 0x80]);
+    let back = no_panic(|| rt(&input)).map_err(|p| fail("corpus", format!("{}: decode panicked: {}", t.name, p), c()))?;
+    match back {
+        Ok((b2, consumed)) if b2 == bytes && consumed == bytes.len() => {}
+        other => {
+            return Err(fail(
+                "corpus",
+                format!("{}: {} encodes to {} but decoding and re-encoding gives {:?}", t.name, v.dbg(), hex(&bytes), other.map(|(b, c)| (hex(&b), c))),
+                c(),
+            ))
+        }
+    }
+    if bytes.len() >= 2 {
+        l.nontrivial(&(t.name.as_str(), &bytes));
+    }
+    l.class("corpus-type-roundtrip");
+    l.sample(|| format!("[{}] {} => {}", t.name, v.dbg(), hex(&bytes[..bytes.len().min(32)])));
+    Ok(())
+}
+
+pub fn c01(ctx: &Ctx) {
+    let n = ctx.tier.pick(60_000, 2_000_000);
+    ctx.par_proptest("corpus-types", n, || arb_case(|t| t.roundtrip.is_some()), |(ti, d), l| c01_one(*ti, d, None, l));
+    let ex = all_extremes(|t| t.roundtrip.is_some());
+    ctx.par_range("corpus-extremes", ex.len() as u64, |i, l| c01_one(ex[i as usize].0, &[], Some(ex[i as usize].1), l));
+}
+
 pub fn c02(_ctx: &Ctx) {}
-pub fn c15(_ctx: &Ctx) {}
-pub fn c16(_ctx: &Ctx) {}
-pub fn c19(_ctx: &Ctx) {}
-pub fn c17(_ctx: &Ctx) {}
+
+// ------------------------------------------------------------------ C12
+
+fn c12_one(ti: usize, data: &[u8], extreme: Option<usize>, l: &mut Local) -> Result<usize, crate::runner::Fail> {
+    let t = &types()[ti];
+    let Some(max) = t.max_size else { return Ok(0) };
+    let Some(v) = value(t, data, extreme, false) else { return Ok(0) };
+    let c = || cj(t, data, extreme, "C12");
+    l.eval();
+    let bytes = no_panic(|| v.bytes()).map_err(|p| fail("max-size", format!("{}: to_allocvec panicked: {}", t.name, p), c()))?;
+    let bytes = bytes.map_err(|e| fail("max-size", format!("{}: to_allocvec failed: {:?}", t.name, e), c()))?;
+    let sz = no_panic(|| v.size()).map_err(|p| fail("max-size", format!("{}: serialized_size panicked: {}", t.name, p), c()))?;
+    if sz != Ok(bytes.len()) {
+        return Err(fail("max-size", format!("{}: serialized_size {:?} != encoded length {}", t.name, sz, bytes.len()), c()));
+    }
+    if bytes.len() > max {
+        return Err(fail(
+            "max-size",
+            format!("{}: value {} encodes to {} bytes, more than POSTCARD_MAX_SIZE = {}", t.name, v.dbg(), bytes.len(), max),
+            c(),
+        ));
+    }
+    if max <= 1 << 20 {
+        let r = no_panic(|| v.to_slice_cap(max)).map_err(|p| fail("max-size", format!("{}: to_slice panicked: {}", t.name, p), c()))?;
+        if r != Ok(bytes.len()) {
+            return Err(fail("max-size", format!("{}: a buffer of POSTCARD_MAX_SIZE = {} bytes did not suffice: {:?}", t.name, max, r), c()));
+        }
+    }
+    if bytes.len() + 1 >= max {
+        l.nontrivial(&(t.name.as_str(), &bytes));
+        l.class("within-1-of-max");
+    }
+    l.sample(|| format!("[{}] MAX={} len={} value={}", t.name, max, bytes.len(), v.dbg()));
+    Ok(bytes.len())
+}
+
+pub fn c12_replay(case: &Json, l: &mut Local) -> CaseResult {
+    let Some(ti) = find(case["corpus_type"].as_str().unwrap_or("")) else {
+        return Err(fail("max-size", "replay: unknown corpus type (generated corpus differs?)", case.clone()));
+    };
+    if case.get("tightness").is_some() {
+        return c12_tight(ti, l);
+    }
+    let data = crate::runner::unhex(case["data"].as_str().unwrap_or(""));
+    c12_one(ti, &data, case["extreme"].as_u64().map(|e| e as usize), l).map(|_| ())
+}
+
+fn c12_tight(ti: usize, l: &mut Local) -> CaseResult {
+    let t = &types()[ti];
+    let max = t.max_size.unwrap();
+    let n = (t.extremes)().len();
+    let mut best = 0;
+    for e in 0..n {
+        best = best.max(c12_one(ti, &[], Some(e), l)?);
+    }
+    if t.tight && best != max {
+        return Err(fail(
+            "max-size",
+            format!("{}: POSTCARD_MAX_SIZE = {} but the largest encoding over the extreme values is {} (the maximum is claimed to be attained)", t.name, max, best),
+            json!({"corpus_type": t.name, "tightness": true, "corpus_prop": "C12"}),
+        ));
+    }
+    if t.tight {
+        l.class("tightness-verified");
+    }
+    Ok(())
+}
+
+pub fn c12(ctx: &Ctx) {
+    ctx.set_rule(
+        "cases: every built-in MaxSize impl at several parameters (ints, isize/usize, floats, bool, char, (), Option, Result, arrays \
+         0/1/2/32, NonZero*, PhantomData, tuples 1-6, 4 ranges, Box/Rc/Arc, heapless::Vec<T,N> / String<N> at N in {0,1,127,128, \
+         16383,16384}), hand-written derive users (in-repo derive and the published derive re-exported by postcard::experimental), \
+         127/128/129-variant enums and a generated corpus of random structs/enums using the in-repo derive; values = each type's \
+         extremes (every variant; every field at MIN/MAX/4-byte char/full container) + random values from a byte source. oracle: \
+         serialized_size == to_allocvec().len() <= POSTCARD_MAX_SIZE, to_slice into exactly POSTCARD_MAX_SIZE bytes succeeds, and \
+         for the kinds the statement lists max over extremes == POSTCARD_MAX_SIZE. non-trivial = value within 1 byte of the declared \
+         maximum; distinct = hash(type, bytes)",
+    );
+    ctx.assume("enums are only bounded, not tight (the derive sizes the discriminant by the variant count)");
+    let idx: Vec<usize> = types().iter().enumerate().filter(|(_, t)| t.max_size.is_some()).map(|(i, _)| i).collect();
+    ctx.extra.lock().unwrap().insert("types_with_max_size".into(), json!(idx.len()));
+    ctx.extra.lock().unwrap().insert("generated_corpus_seed".into(), json!(corpus::generated::SEED));
+    {
+        let idx = &idx;
+        ctx.par_range("extremes-and-tightness", idx.len() as u64, move |i, l| c12_tight(idx[i as usize], l));
+    }
+    let n = ctx.tier.pick(200_000, 5_000_000);
+    ctx.par_proptest("random-values", n, || arb_case(|t| t.max_size.is_some()), |(ti, d), l| c12_one(*ti, d, None, l).map(|_| ()));
+}
+
+// ------------------------------------------------------------------ C14
+
+fn owned_schema(t: &CorpusType) -> Option<OwnedDataModelType> {
+    t.schema.map(|f| OwnedDataModelType::from(f()))
+}
+
+fn c14_one(ti: usize, data: &[u8], extreme: Option<usize>, l: &mut Local) -> CaseResult {
+    let t = &types()[ti];
+    let Some(schema) = owned_schema(t) else { return Ok(()) };
+    let Some(v) = value(t, data, extreme, false) else { return Ok(()) };
+    let c = || cj(t, data, extreme, "C14");
+    l.eval();
+    let call = no_panic(|| v.call()).map_err(|p| fail("schema-conform", format!("{}: recording panicked: {}", t.name, p), c()))?;
+    let call = call.map_err(|e| fail("schema-conform", format!("{}: recording failed: {}", t.name, e), c()))?;
+    if let Err(why) = conforms(&call, &schema) {
+        return Err(fail(
+            "schema-conform",
+            format!("{}: value {} does not serialise as its Schema says: {}", t.name, v.dbg(), why),
+            c(),
+        ));
+    }
+    // consequence: a schema-driven reader parses the encoding exactly
+    let tree = schematree::from_owned(&schema);
+    let bytes = v.bytes().map_err(|e| fail("schema-conform", format!("{}: to_allocvec failed {:?}", t.name, e), c()))?;
+    if let Some(shape) = dynmap::tree_to_shape(&tree) {
+        match ref_decode(&shape, &bytes) {
+            Ok(d) => {
+                if d.consumed != bytes.len() {
+                    return Err(fail(
+                        "schema-conform",
+                        format!("{}: a reader driven by the schema consumed {} of {} bytes of {}", t.name, d.consumed, bytes.len(), hex(&bytes)),
+                        c(),
+                    ));
+                }
+                let re = ref_encode(&shape, &d.value).map(|e| e.bytes);
+                if re.as_ref() != Ok(&bytes) {
+                    return Err(fail("schema-conform", format!("{}: schema-driven re-encoding differs from the encoding", t.name), c()));
+                }
+            }
+            Err(crate::refcodec::DecErr::ZeroWidthSkip) => {}
+            Err(e) => {
+                return Err(fail(
+                    "schema-conform",
+                    format!("{}: a reader driven by the schema cannot parse {} ({:?})", t.name, hex(&bytes), e),
+                    c(),
+                ))
+            }
+        }
+    }
+    // variant coverage
+    if let (OwnedDataModelType::Enum { variants, .. }, Some(idx)) = (&schema, top_variant(&call)) {
+        l.class(&format!("variant:{}:{}/{}", t.name, idx, variants.len()));
+    }
+    let nontrivial = match &call {
+        crate::record::Call::UnitVariant(_, i, _)
+        | crate::record::Call::NewtypeVariant(_, i, _, _)
+        | crate::record::Call::TupleVariant(_, i, _, _, _)
+        | crate::record::Call::StructVariant(_, i, _, _, _) => *i > 0,
+        _ => bytes.len() >= 2,
+    };
+    if nontrivial {
+        l.nontrivial(&(t.name.as_str(), &bytes));
+    }
+    l.sample(|| format!("[{}] {} conforms to {}", t.name, v.dbg(), schema.to_pseudocode()));
+    Ok(())
+}
+
+fn top_variant(c: &crate::record::Call) -> Option<u32> {
+    use crate::record::Call as C;
+    match c {
+        C::UnitVariant(_, i, _) | C::NewtypeVariant(_, i, _, _) | C::TupleVariant(_, i, _, _, _) | C::StructVariant(_, i, _, _, _) => Option::Some(*i),
+        _ => Option::None,
+    }
+}
+
+pub fn c14_replay(case: &Json, l: &mut Local) -> CaseResult {
+    let Some(ti) = find(case["corpus_type"].as_str().unwrap_or("")) else {
+        return Err(fail("schema-conform", "replay: unknown corpus type (generated corpus differs?)", case.clone()));
+    };
+    let data = crate::runner::unhex(case["data"].as_str().unwrap_or(""));
+    c14_one(ti, &data, case["extreme"].as_u64().map(|e| e as usize), l)
+}
+
+pub fn c14(ctx: &Ctx) {
+    ctx.set_rule(
+        "cases: every built-in Schema impl (ints, NonZero*, floats, char, str/String/PathBuf, (), tuples 1-6, arrays, Vec/sets, maps, \
+         Option, Result, 4 ranges, heapless 0.7/0.8, Uuid, DateTime<Utc|FixedOffset>, SMatrix, Key, DataModelType, OwnedDataModelType) \
+         and hand-written + generated derive users (unit/newtype/tuple/named structs, all four variant forms, generics, nesting, raw \
+         identifiers) x values covering every variant (extremes) + random values. oracle: the serde call tree recorded for the value \
+         conforms strictly to T::SCHEMA (kinds, field names and order, variant names and indices, arity, element types; Schema kind \
+         against a hand-written schema-of-schemas), and a reader that knows only the schema (schema -> shape -> reference decoder) \
+         parses to_allocvec(v) consuming it exactly and re-encodes to the same bytes. non-trivial = value of a non-first variant, or \
+         encoding >= 2 bytes; distinct = hash(type, bytes); per-(type,variant) coverage in 'classes'",
+    );
+    ctx.assume("struct/enum *type* names are not compared (the statement does not list them)");
+    let n_types = types().iter().filter(|t| t.schema.is_some()).count();
+    ctx.extra.lock().unwrap().insert("types_with_schema".into(), json!(n_types));
+    ctx.extra.lock().unwrap().insert("generated_corpus_seed".into(), json!(corpus::generated::SEED));
+    let ex = all_extremes(|t| t.schema.is_some());
+    ctx.par_range("extremes", ex.len() as u64, |i, l| c14_one(ex[i as usize].0, &[], Some(ex[i as usize].1), l));
+    let n = ctx.tier.pick(150_000, 4_000_000);
+    ctx.par_proptest("random-values", n, || arb_case(|t| t.schema.is_some()), |(ti, d), l| c14_one(*ti, d, None, l));
+}
+
+// ------------------------------------------------------------------ C15 / C16 / C19 over corpus schemas
+
+fn corpus_trees() -> Vec<(usize, Tree)> {
+    types()
+        .iter()
+        .enumerate()
+        .filter_map(|(i, t)| owned_schema(t).map(|s| (i, schematree::from_owned(&s))))
+        .collect()
+}
+
+pub fn c15(ctx: &Ctx) {
+    let trees = corpus_trees();
+    ctx.par_range("corpus-schemas", trees.len() as u64, |i, l| {
+        let (ti, tree) = &trees[i as usize];
+        // the static schema itself, not a rebuilt copy: borrowed vs owned vs deserialised
+        let t = &types()[*ti];
+        let st = (t.schema.unwrap())();
+        let owned = OwnedDataModelType::from(st);
+        l.eval();
+        let b1 = postcard::to_allocvec(st).map_err(|e| fail("schema-wire", format!("{}: {:?}", t.name, e), json!({"tree": tree})))?;
+        let b2 = postcard::to_allocvec(&owned).map_err(|e| fail("schema-wire", format!("{}: {:?}", t.name, e), json!({"tree": tree})))?;
+        if b1 != b2 {
+            return Err(fail("schema-wire", format!("{}: SCHEMA and its owned conversion serialise differently", t.name), json!({"tree": tree})));
+        }
+        super::c15::check(tree, l)
+    });
+}
+
+pub fn c16(ctx: &Ctx) {
+    let trees = corpus_trees();
+    ctx.par_range("corpus-keys", trees.len() as u64 * 3, |i, l| {
+        let (ti, tree) = &trees[(i / 3) as usize];
+        let t = &types()[*ti];
+        let path = ["", "topic/a", "данные/路径"][(i % 3) as usize];
+        l.eval();
+        let k = (t.key.unwrap())(path);
+        let want = schematree::ref_key(path, tree);
+        if k != want {
+            return Err(fail(
+                "key",
+                format!("Key::for_path::<{}>({:?}) = {} but FNV-1a over path ++ documented stream is {}", t.name, path, hex(&k), hex(&want)),
+                json!({"path": path, "tree": tree}),
+            ));
+        }
+        let owned = schematree::to_owned_expected(tree);
+        if postcard_schema::key::Key::for_owned_schema_path(path, &owned).to_bytes() != k {
+            return Err(fail("key", format!("{}: compile-time and run-time keys differ", t.name), json!({"path": path, "tree": tree})));
+        }
+        l.class("corpus-type-key");
+        l.nontrivial(&(path, tree, 5u8));
+        Ok(())
+    });
+}
+
+pub fn c19(ctx: &Ctx) {
+    let trees = corpus_trees();
+    ctx.par_range("corpus-schemas", trees.len() as u64, |i, l| super::c19::check(&trees[i as usize].1, l));
+}
+
+// ------------------------------------------------------------------ C17 over corpus types
+
+fn c17_one(ti: usize, data: &[u8], extreme: Option<usize>, l: &mut Local) -> CaseResult {
+    let t = &types()[ti];
+    let Some(schema) = owned_schema(t) else { return Ok(()) };
+    let c = || cj(t, data, extreme, "C17");
+    let v = match extreme {
+        Some(e) => match (t.extremes)().into_iter().nth(e) {
+            Some(v) => v,
+            None => return Ok(()),
+        },
+        None => {
+            let mut s = Src::new(data, true);
+            (t.make)(&mut s)
+        }
+    };
+    let Some(j) = v.json() else { return Ok(()) };
+    let bytes = v.bytes().map_err(|e| fail("corpus-dyn", format!("{}: {:?}", t.name, e), c()))?;
+    l.eval();
+    let enc = no_panic(|| postcard_dyn::to_stdvec_dyn(&schema, &j))
+        .map_err(|p| fail("corpus-dyn", format!("{}: to_stdvec_dyn panicked: {}", t.name, p), c()).sig(format!("panic:{}", panic_site(&p))))?;
+    if enc.as_ref() != Ok(&bytes) {
+        return Err(fail(
+            "corpus-dyn",
+            format!("{}: to_stdvec_dyn(SCHEMA, {}) = {:?}, the static encoder gives {}", t.name, j, enc.map(|b| hex(&b)), hex(&bytes)),
+            c(),
+        ));
+    }
+    let dec = no_panic(|| postcard_dyn::from_slice_dyn(&schema, &bytes))
+        .map_err(|p| fail("corpus-dyn", format!("{}: from_slice_dyn panicked: {}", t.name, p), c()).sig(format!("panic:{}", panic_site(&p))))?;
+    if dec.as_ref() != Ok(&j) {
+        return Err(fail("corpus-dyn", format!("{}: from_slice_dyn(SCHEMA, {}) = {:?}, serde_json gives {}", t.name, hex(&bytes), dec, j), c()));
+    }
+    l.class("corpus-type-dyn");
+    if j.is_array() || j.is_object() {
+        l.nontrivial(&(t.name.as_str(), &bytes, 17u8));
+    }
+    l.sample(|| format!("[{}] {} json={}", t.name, v.dbg(), j));
+    Ok(())
+}
+
+pub fn c17(ctx: &Ctx) {
+    let n = ctx.tier.pick(100_000, 3_000_000);
+    ctx.par_proptest(
+        "corpus-types",
+        n,
+        || arb_case(|t| t.schema.is_some() && t.json_faithful),
+        |(ti, d), l| c17_one(*ti, d, None, l),
+    );
+}
+
+/// Replay for corpus-based failures of any property (dispatch on "corpus_prop").
+pub fn replay_corpus(case: &Json, l: &mut Local) -> Option<CaseResult> {
+    let prop = case.get("corpus_prop")?.as_str()?;
+    let Some(ti) = find(case["corpus_type"].as_str().unwrap_or("")) else {
+        return Some(Err(fail("corpus", "replay: unknown corpus type (generated corpus differs?)", case.clone())));
+    };
+    let data = crate::runner::unhex(case["data"].as_str().unwrap_or(""));
+    let ex = case["extreme"].as_u64().map(|e| e as usize);
+    Some(match prop {
+        "C01" => c01_one(ti, &data, ex, l),
+        "C12" => c12_replay(case, l),
+        "C14" => c14_one(ti, &data, ex, l),
+        "C17" => c17_one(ti, &data, ex, l),
+        _ => Ok(()),
+    })
+}
